@@ -138,33 +138,42 @@ def check(ctx):
     stored = [w for w in ps.attr_writes if w[1] == "aggregate_pred_margin"]
     ctx.require(len(stored) >= 1, f"{gp.where()}: self.aggregate_pred_margin is no longer stored by the prediction function")
     adj = stored[0][2]
-    pm = None
-    if pr[0] == "phi" and pr[1] == TOPC:
-        top, non = pr[2], pr[3]
-        t = top
+    def _col(table, name):
+        t = table
         while t[0] == "setitem":
-            if t[2] == ("const", "pred_margin") and pm is None:
-                pm = t
+            if t[2] == ("const", name):
+                return t[3]
             t = t[1]
-    ok = pm is not None and pm[3] == adj
+        return None
+
+    def _flat(t):
+        while t is not None and t[0] == "call" and t[1][0] == "attr" and t[1][2] in ("reshape", "flatten"):
+            t = t[1][1]
+        return t
+
+    # views of the returned table and of the stored vector at / below the top level (whatever the branch layout)
+    top_tab, non_tab = ir.resolve_phi(pr, TOPC, True), ir.resolve_phi(pr, TOPC, False)
+    adj = ir.resolve_phi(adj, TOPC, True)
+    pm_top, pm_non = _col(top_tab, "pred_margin"), _col(non_tab, "pred_margin")
+    ok = pm_top is not None and _flat(pm_top) == _flat(adj)
     ctx.ob("C07.R2.reported", f"{gp.qualname}|reported prediction is the adjusted one", ok, gp.where(),
            "at top level the call-adjusted vector is returned as pred_margin (and kept for the interval centre)" if ok
            else "the call-adjusted prediction is not what the returned table reports as pred_margin")
-    if pm is not None:
-        ctx.ob("C07.R2.nontop", f"{gp.qualname}|non-top-level untouched", pm[1] == non or non in set(ir.walk(top)), gp.where(),
-               "finer aggregates are returned without call adjustment")
-    # descend the mask-assignment chain to the raw prediction
+    if pm_non is not None:
+        untouched = not any(_is_fcc(x) for x in ir.walk(pm_non))
+        ctx.ob("C07.R2.nontop", f"{gp.qualname}|non-top-level untouched", untouched, gp.where(),
+               "finer aggregates are returned without call adjustment" if untouched else "race calls are applied to finer aggregates")
+    # the raw prediction is whatever the prediction function hands to _adjust_called_contests (read from the un-inlined call);
+    # the adjusted value is then evaluated abstractly, whatever idiom the helper uses (mask assignments, np.where, clip ..)
     core = adj
     while core[0] == "call" and core[1][0] == "attr" and core[1][2] in ("reshape", "flatten"):
         core = core[1][1]
-    chain = core
-    masks = []
-    while chain[0] == "setitem":
-        masks.append(chain)
-        chain = chain[1]
-    ctx.require(chain[0] == "call" and chain[1][0] == "attr" and chain[1][2] == "copy" and len(masks) == 2,
-                f"{gp.where()}: adjusted prediction is not a copy with two mask assignments ({ir.show(core, maxdepth=3)})")
-    RAW = chain[1][1]
+    ps0 = ctx.builder(inline=lambda *a: False).summarize(gp, self_cls=cls)
+    acalls = [x for _, _, t_, _ in ps0.assigns for x in ir.walk(t_) if x[0] == "call" and x[1] == ("attr", SELF, "_adjust_called_contests")]
+    acalls += [x for w in ps0.attr_writes for x in ir.walk(w[2]) if x[0] == "call" and x[1] == ("attr", SELF, "_adjust_called_contests")]
+    ctx.require(acalls and len(acalls[0][2]) == 2, f"{gp.where()}: call of _adjust_called_contests(prediction, called) not found in the prediction function")
+    RAW = acalls[0][2][0]
+    ctx.require(any(x == RAW for x in ir.walk(core)), f"{gp.where()}: the adjusted prediction does not depend on the raw prediction handed to _adjust_called_contests")
     calls_p = [x for x in ir.walk(core) if _is_fcc(x)]
     ctx.require(calls_p, f"{gp.where()}: _format_called_contests call not found in the prediction")
     CALLED_P = calls_p[0]
@@ -187,7 +196,7 @@ def check(ctx):
     viol = {}
     for rp in R.all_regions():
         for code, who in ((L_CODE, "L"), (R_CODE, "R"), (N_CODE, "none")):
-            env = {RAW: ("r", rp), CALLED_P: ("i", code)}
+            env = {RAW: ("r", rp), CALLED_P: ("i", code), TOPC: ("b", True)}
             out = RegionEval(R, env, fold).ev(core)
             nstates += 1
             out = out if out[0] == "r" else ("r", R.of_const(out[1]))
